@@ -105,8 +105,10 @@ def check_program(run: common.Run, node: Tuple, T: str, env: Dict[str, Tuple[str
             if c[0] == "bin" and cv is not None:
                 lv = ref_value(c[2], renv)
                 operand = f"({lv[0]})" if lv is not None else ""
-            report(f"{r}-class-{localize.describe(c)}{operand}-{diff.split(': ')[1].replace(' ', '-')}", dict(case, route=r, culprit=ir.render(c)),
-                   f"{ir.render(c)}: {diff}")
+            key = f"{r}-class-{localize.describe(c)}{operand}-{diff.split(': ')[1].replace(' ', '-')}"
+            if r == "C" and any(x[0] == "has" for x in ir.walk(c)) and diff.endswith("bool expected BoolType"):
+                key = "C-class-has-bool-expected-BoolType"  # the Python bool produced by compiled has(), seen through a macro body / container
+            report(key, dict(case, route=r, culprit=ir.render(c)), f"{ir.render(c)}: {diff}")
         # (b)
         want_name = refcel.type_name(rv)
         for name in TYPE_NAMES:
